@@ -202,7 +202,15 @@ void Checkable::FireSuppressedNotifications()
 			 * If any of these conditions is not met, processing the suppressed notification is further delayed.
 			 */
 			if (!state_suppressed && GetStateType() == StateTypeHard && !IsLikelyToBeCheckedSoon() && !wasLastParentRecoveryRecent.Get()) {
-				if (cr->GetState() != GetStateBeforeSuppression()) {
+				ServiceState stateBefore = GetStateBeforeSuppression();
+				bool stateDiffers = cr->GetState() != stateBefore;
+
+				if (dynamic_cast<Host *>(this)) {
+					/* Hosts only know UP and DOWN, compare these just like ProcessCheckResult() does for state changes. */
+					stateDiffers = Host::CalculateState(cr->GetState()) != Host::CalculateState(stateBefore);
+				}
+
+				if (stateDiffers) {
 					Checkable::OnNotificationsRequested(this, type, cr, "", "", nullptr);
 				}
 				subtract |= NotificationRecovery|NotificationProblem;
